@@ -49,7 +49,8 @@ def tlc(spec, cfg=None, env=None, workers=1, extra=(), timeout=1100, xmx="6g", d
     ensure_overrides()
     meta = scratch("tlc-" + spec)
     cmd = ["java", "-XX:+UseParallelGC", "-Xss256m", "-Xmx" + xmx,
-           "-Dtlc2.overrides.TLCOverrides=tlc2.overrides.TLCOverrides:isal.Prim"]
+           "-Dtlc2.overrides.TLCOverrides=tlc2.overrides.TLCOverrides:isal.Prim",
+           "-Djava.io.tmpdir=" + meta]     # TLC unpacks its standard modules into a temp dir per run: keep it inside the run's scratch
     if dfs:
         cmd.append("-Dtlc2.tool.queue.IStateQueue=StateDeque")
     cmd += ["-cp", CLASSES + ":" + JARS, "tlc2.TLC", "-workers", str(workers), "-metadir", meta, "-noGenerateSpecTE"]
